@@ -239,6 +239,12 @@ func checkPacked(ctx context.Context, st *memory.Store, desc ocispec.Descriptor,
 		if len(m.Layers) != 1 || m.Layers[0].MediaType != ocispec.MediaTypeEmptyJSON {
 			return "placeholder-layer"
 		}
+		// the placeholder is the bare empty descriptor: nothing of the caller's config or of
+		// an earlier call rides on it
+		if len(m.Layers[0].Annotations) != 0 || m.Layers[0].Size != 2 ||
+			m.Layers[0].Digest != "sha256:44136fa355b3678a1146ad16f7e8649e94fb4fc21fe77e8310c060f61caaff8a" {
+			return "placeholder-layer-not-bare"
+		}
 		if ok, _ := st.Exists(ctx, m.Layers[0]); !ok {
 			return "placeholder-layer-absent"
 		}
@@ -265,6 +271,10 @@ func checkPacked(ctx context.Context, st *memory.Store, desc ocispec.Descriptor,
 	}
 	if desc.Annotations[ocispec.AnnotationCreated] != c {
 		return "descriptor-annotations"
+	}
+	// the library's shared empty descriptor must never be written to
+	if len(ocispec.DescriptorEmptyJSON.Annotations) != 0 || ocispec.DescriptorEmptyJSON.MediaType != ocispec.MediaTypeEmptyJSON {
+		return "shared-empty-descriptor-modified"
 	}
 	return "ok"
 }
